@@ -119,10 +119,19 @@ func hC07RestIn() {
 		method = "PUT"
 		rawPath = "/v3/things"
 	}
-	if rule != 0 && verifChoose("withQuery", 2) == 1 {
+	unknownKey := false
+	switch {
+	case rule == 0:
+	case verifChoose("withQuery", 3) == 1:
 		qv := symbolicValue("queryId", nameLen)
 		query = "id=" + url.QueryEscape(qv)
 		want[1], wantSet[1] = qv, true
+	case verifChoose("withQuery", 3) == 2:
+		// a query key that is a field name followed by one more character (".", a letter, ...): not a field
+		c := verifNondetByte("keySuffix")
+		verifAssume(refUnreserved(c))
+		query = "id" + string([]byte{c}) + "=v"
+		unknownKey = true
 	}
 	if rule != 0 && !withBody && query == "" {
 		verifReach("grey-empty-json-body")
@@ -142,6 +151,12 @@ func hC07RestIn() {
 	verifObsInt("calls", int64(f.backend.rec.calls))
 	verifObsBytes("backend-body", f.backend.rec.body)
 	verifObsInt("status", int64(f.sink.status))
+	if unknownKey {
+		verifReach("unknown-query-key")
+		out := f.backend.rec.calls == 1 && f.sink.status == 200
+		verifAssert(!out, "C07: a query parameter that names no field is rejected")
+		return
+	}
 	verifReach("rest-request-served")
 	verifAssert(f.backend.rec.calls == 1, "C07: a request matching the rule is dispatched")
 	if f.backend.rec.calls != 1 {
